@@ -18,7 +18,8 @@ From V.gen Require Consts.
 From V.C14 Require Model Proofs.
 From V.C15 Require Model Engine.
 From V.C17 Require Model Proofs Timed Ingress.
-From V.C16 Require Import Model Proofs Obl Bound Chan Exec Time Compose Comp EngineRef.
+From V.gen Require C16Tables.
+From V.C16 Require Import Model Proofs Obl Bound Chan Exec Time Compose Comp EngineRef HandleModel Handle.
 Import ListNotations.
 Open Scope N_scope.
 
@@ -676,6 +677,113 @@ Theorem C16_engine_serve_refines :
              serve s q = on_action (w_eng s e') (snd (V.C15.Engine.xstep gc xe (V.C15.Engine.XNext (now s) (q + 1)))).
 Proof. exact engine_serve_refines. Qed.
 Print Assumptions C16_engine_serve_refines.
+
+(* ---- the user's side: KademliaHandle (HandleModel.v, Handle.v) ---- *)
+
+(* `hrun (h0 cap) ops`: the user calls methods of the handle (`OCall tr body`; every method draws its query
+   id from the shared counter BEFORE it sends), the loop takes commands from the bounded channel (`OTake`),
+   a waiting async method gets its slot (`OWake`), the store branch starts provider refreshes with ids from
+   the same counter (`OFire`), and anything else happens (`OEnv`).  Whatever the interleaving, the user
+   events the loop performs carry fresh ids: the assumption `ufresh` of the composed theorems is discharged *)
+Theorem C16_handle_ids_fresh :
+  forall cap ops, ufresh [] (snd (fst (hrun (h0 cap) ops))).
+Proof. exact handle_ids_fresh. Qed.
+Print Assumptions C16_handle_ids_fresh.
+
+(* hence, through the handle, never two terminal events for one id and exactly one when the operation is not
+   live any more — no freshness assumption left *)
+Theorem C16_handle_one_terminal :
+  forall wc m cap ops q,
+  let us := snd (fst (hrun (h0 cap) ops)) in
+  let W0 := w0 wc m (length (lkey wc)) in
+  (terminals q (snd (crun wc W0 us)) + (if live q (w_st (fst (crun wc W0 us))) then 1 else 0) =
+   cstarted wc W0 q us)%nat /\
+  (cstarted wc W0 q us <= ustarted q us)%nat /\ (cstarted wc W0 q us <= 1)%nat.
+Proof. intros. apply c_one_terminal. apply handle_ids_fresh. Qed.
+Print Assumptions C16_handle_one_terminal.
+
+(* a try_ method that finds the command channel full (or the loop gone) returns Err(()), leaves the channel
+   and a waiting sender untouched — no operation is started, so no terminal event is owed — but the id it
+   has drawn is spent: in every history the loop starts nothing under that id, and no terminal event ever
+   carries it *)
+Theorem C16_handle_try_full :
+  forall cap ops0 b ops1,
+  let h := fst (fst (hrun (h0 cap) ops0)) in
+  h_closed h || full h = true -> draws b = true ->
+  snd (hcall h true b) = RErr /\
+  h_chan (fst (hcall h true b)) = h_chan h /\ h_park (fst (hcall h true b)) = h_park h /\
+  let us := snd (fst (hrun (h0 cap) (ops0 ++ OCall true b :: ops1))) in
+  ustarted (h_next h) us = 0%nat /\
+  forall wc m, terminals (h_next h) (snd (crun wc (w0 wc m (length (lkey wc))) us)) = 0%nat.
+Proof.
+  intros cap ops0 b ops1 h Hf Hd.
+  destruct (try_full_nothing h b Hf) as (R1 & R2 & R3 & _).
+  destruct (failed_try_starts_nothing cap ops0 b ops1 Hf Hd) as [_ Hs]. fold h in Hs.
+  split; [exact R1 |]. split; [exact R2 |]. split; [exact R3 |]. split; [exact Hs |].
+  intros wc m.
+  destruct (c_one_terminal wc m _ (h_next h) (handle_ids_fresh cap (ops0 ++ OCall true b :: ops1)))
+    as (A & B & _).
+  rewrite Hs in B. cbn zeta in A. Lia.lia.
+Qed.
+Print Assumptions C16_handle_try_full.
+
+(* a try_ method that finds a slot queues exactly its command, with the id it returns; the channel is a
+   queue: an accepted command goes to the end and the loop takes from the front *)
+Theorem C16_handle_fifo :
+  (forall h b, h_closed h || full h = false ->
+     snd (hcall h true b) = ROk (if draws b then Some (h_next h) else None) /\
+     h_chan (fst (hcall h true b)) = h_chan h ++ [with_id b (h_next h)]) /\
+  (forall h tr b h' r, hcall h tr b = (h', r) ->
+     h_chan h' = h_chan h \/ h_chan h' = h_chan h ++ [with_id b (h_next h)]) /\
+  (forall h c t, h_chan h = c :: t ->
+     snd (hrecv h) = Some c /\ h_chan (fst (hrecv h)) = t /\ h_park (fst (hrecv h)) = h_park h).
+Proof. split; [exact try_ok_queued |]. split; [exact accepted_last | exact hrecv_fifo]. Qed.
+Print Assumptions C16_handle_fifo.
+
+(* every command is the user event `h2u` of the composed model, and elaborates to the Model.v event whose
+   QueryEngine::start_* call is the one the arm of Kademlia::run for that command makes (coq/gen/C16Tables.v,
+   extracted from the source on every check) *)
+Theorem C16_command_starts_in_sync :
+  forall wc w,
+  Forall (fun c => option_map fst (loop_row (cmd_name c)) = Some (start_name (fst (fst (elab wc w (h2u c))))))
+         cmd_samples.
+Proof. exact command_starts_in_sync. Qed.
+Print Assumptions C16_command_starts_in_sync.
+
+(* the KademliaEvent variants of the source, in order, against the model's outputs: the terminal events all
+   carry a query id; RoutingTableUpdate, IncomingRecord and IncomingProvider carry none and are never
+   terminal; GetRecordPartialResult carries one and is not terminal *)
+Theorem C16_events_classified :
+  map (fun r => (fst r, has_field F_QUERY_ID r)) V.gen.C16Tables.events =
+    map (fun x => (fst (fst x), snd (fst x))) tbl_events /\
+  map (fun x => fst (fst x)) (filter (fun x => snd (fst x) && negb (snd x)) tbl_events) = EV_PARTIAL /\
+  map (fun x => fst (fst x)) (filter (fun x => negb (snd (fst x))) tbl_events) =
+    EV_NOID /\
+  forall x, In x tbl_events -> snd x = true -> snd (fst x) = true.
+Proof. exact events_classified. Qed.
+Print Assumptions C16_events_classified.
+
+(* the tables extracted from handle.rs / mod.rs / executor.rs / target_peers.rs are the model's: enum Quorum
+   (N carries a NonZeroUsize), the command variants, the fifteen methods (which command, which draw an id,
+   send or try_send), the event each QueryAction is turned into, peers_to_succeed, the executor, service,
+   refresh and command arms of the loop *)
+Theorem C16_tables_in_sync :
+  V.gen.C16Tables.quorum = tbl_quorum /\
+  map fst V.gen.C16Tables.commands = tbl_commands /\
+  V.gen.C16Tables.methods = tbl_methods /\
+  map (fun r => (fst (fst r), snd (fst r))) V.gen.C16Tables.actions = tbl_action_events /\
+  V.gen.C16Tables.need = tbl_need /\
+  V.gen.C16Tables.results = tbl_results /\
+  V.gen.C16Tables.transports = tbl_transports /\
+  V.gen.C16Tables.refresh = tbl_refresh /\
+  map (fun r : String.string * list String.string * list String.string * list String.string => (fst (fst (fst r)), snd (fst r)))
+      V.gen.C16Tables.loop_cmds = tbl_cmd_store /\
+  map (fun r : String.string * list String.string * list String.string * list String.string => (fst (fst (fst r)), snd r))
+      (filter (fun r : String.string * list String.string * list String.string * list String.string =>
+                 match snd r with [] => false | _ => true end) V.gen.C16Tables.loop_cmds) =
+    GETRECORD_ROW.
+Proof. exact tables_in_sync. Qed.
+Print Assumptions C16_tables_in_sync.
 
 (* the shipped parallelism factor and executor timeouts satisfy what is assumed above *)
 Theorem C16_default_config :
